@@ -179,6 +179,10 @@ func (ms *readWriteSegment) Close() error {
 	defer ms.Unlock()
 
 	err := multierr.Combine(
+		// Make the segment durable before it is unmapped: after a rollover, wal.Sync() only
+		// flushes the new segment, so entries appended here since the last Flush would
+		// otherwise be acknowledged as synced without ever having been msync'ed.
+		ms.txnMappedFile.Flush(),
 		ms.txnMappedFile.Unmap(),
 		ms.txnFile.Close(),
 		// Write index file
